@@ -69,9 +69,40 @@ FAILERS.update({
 })
 VOL_FAILERS = sorted(k for k in FAILERS if k.startswith("vol_"))
 
+
+def _exp_probe(total):
+    """68000 macro whose single body line expands to exactly `total` characters (the body line itself is two shorter; 1024 = initial line-buffer capacity, 1152 = capacity after one growth step):
+    a few long string arguments and the parameter p1, which is replaced by the four characters $012"""
+    head, tail = " dc.b ", ",p1"      # no tabs: a line with tabs is stored differently and never sits on the boundary
+    room = total - 1 - len(head) - len(tail)            # characters for the string arguments of the body line
+    parts = []
+    while room > 0:
+        n = min(room, 203)                               # "..." of at most 200 characters plus the comma
+        if room - n in (1, 2, 3):                        # never leave a rest too short for '"x",'
+            n -= 4
+        parts.append('"' + "abcdefghij"[len(parts) % 10] * (n - 3) + '"')
+        room -= n
+    line = head + ",".join(parts) + tail
+    line += "" if len(line) == total - 2 else ""
+    return "\tcpu 68000\nem\tmacro p1\n" + line + "\n\tendm\n\tem $012\n\tdc.b 255\n"
+
+
 # small valid successor programs: the multi-byte data statements of 36 code generators (byte order, word size and
 # packing flags of shared pseudo-op modules must come from the program's own target, not from an earlier source)
 PROBES = {
+    # a source that ends outside the CODE segment / a source that relies on CODE starting at 0 (no ORG, CPU not on line 1)
+    'lang_endsdata': '\tcpu 8051\n\tnop\n\tsegment data\n\torg 30h\nv1:\tds 2\n\tsegment xdata\nv2:\tds 3\n',
+    'lang_endsio': '\tcpu z80\n\tnop\n\tnop\n\tsegment io\n\torg 10h\np1:\tds 1\n',
+    'lang_noorg51': '; no ORG: CODE starts at its initial value\n\tcpu 8051\n\tdb 1,2,3\nl1:\tsjmp l1\n\tsegment data\nd1:\tds 1\n',
+    'lang_noorgz80': '; comment first\n\n\tcpu z80\n\tdb 4,5\nl2:\tjr l2\n\tdw l2\n',
+    'lang_noorg68k': '; comment first\n\tcpu 68000\n\tdc.w 1,2\nl3:\tbra.s l3\n\tdc.l l3\n',
+    # line buffers live for the whole run and only grow: a long line in one source, an expansion at the old capacity
+    # in the next
+    'lang_longline': '\tcpu 6502\n; ' + 'x' * 1100 + '\n\tnop\n\tbyt 1,2,3\n',
+    'lang_longline2': '\tcpu z80\n\tdb 1 ; ' + 'y' * 2100 + '\n\tnop\n',
+    'lang_exp1022': _exp_probe(1022), 'lang_exp1023': _exp_probe(1023), 'lang_exp1024': _exp_probe(1024),
+    'lang_exp1025': _exp_probe(1025), 'lang_exp1026': _exp_probe(1026), 'lang_exp1152': _exp_probe(1152),
+    'lang_exp255': _exp_probe(255), 'lang_exp256': _exp_probe(256), 'lang_exp257': _exp_probe(257),
     'lang_func': '\tcpu z80\nlo8\tfunction x,x&255\nhi8\tfunction x,lo8(x>>8)\n\tdb lo8(1234h),hi8(1234h)\n',
     'lang_macro': '\tcpu z80\nmm\tmacro a,b\nl1:\tdb a\n\tdw l1\n\tif b\n\tmm a+1,b-1\n\tendif\n\tendm\n\tmm 1,3\n',
     'lang_struct': '\tcpu 68000\nrec\tstruct\nf1\tds.w 1\nf2\tds.l 1\nrec\tendstruct\n\tdc.w rec_f2,rec_len\nv\trec\n\tdc.w v_f2\n',
@@ -305,7 +336,7 @@ def fixed_cases(tier):
     for mk in MODE_FAILERS:
         for t in pt:
             out.append(dict(files=["!" + mk, t]))
-    # every data probe after every other one (36 x 35 pairs, three assemblies of a few ms each) and after the
+    # every probe after every other one (all ordered pairs, three assemblies of a few ms each) and after the
     # mode-leaving predecessors
     pk = sorted(PROBES)
     for i, a in enumerate(pk):
